@@ -232,6 +232,25 @@ def _for_shard(arg):
     return acc
 
 
+def _year_sweep(arg):
+    """the same start day, amount and unit in consecutive years, leap and common, in ONE process (an end date must be
+    computed from the whole start date)"""
+    pid, mds = arg
+    acc = core.Acc(pid)
+    for (mth, day) in mds:
+        for n_, unit, w in ((2, "days", "days"), (1, "months", "month"), (1, "weeks", "week"), (2, "months", "months"), (3, "nights", "nights"),
+                            (12, "months", "months")):
+            for year in (2020, 2021, 2022, 2023, 2024, 2021, 2020):
+                if not O.valid_date(year, mth, day):
+                    continue
+                start = dt.date(year, mth, day)
+                text, r = check_for(start, None, n_, unit, w, "for")
+                acc.case((text, "sweep"), nontrivial=True, cls=["for-duration", "year-sweep", "unit:" + unit], sample={"text": text})
+                if r:
+                    acc.fail(r[0], {"kind": "for", "start": start.isoformat(), "clock": None, "n": n_, "unit": unit, "unit_word": w, "conj": "for"}, r[1])
+    return acc
+
+
 def _cons_shard(arg):
     pid, seed, n, shard = arg
     acc = core.Acc(pid)
@@ -263,6 +282,8 @@ def run(ctx):
     acc = core.pmap_acc(ctx.pid, _simple_shard, [(ctx.pid, p) for p in core.chunks(items, 64)])
     n = 48000 if ctx.thorough else int(os.environ.get("QAV_N", 4000))
     acc.merge(core.pmap_acc(ctx.pid, _for_shard, [(ctx.pid, ctx.seed, n // 16, i) for i in range(16)]))
+    mds = [(2, 28), (2, 27), (2, 29), (1, 31), (12, 30), (2, 25), (1, 30), (3, 31), (11, 30)]
+    acc.merge(core.pmap_acc(ctx.pid, _year_sweep, [(ctx.pid, [md]) for md in mds]))
     n2 = 6400 if ctx.thorough else 480
     acc.merge(core.pmap_acc(ctx.pid, _cons_shard, [(ctx.pid, ctx.seed, n2 // 16, i) for i in range(16)]))
     return core.finish(ctx, acc, RULE, assumptions=[
